@@ -1111,9 +1111,9 @@ def construction_assumptions():
     lib = sorted({f"{name(e)} [{e['label']}]" for e in rv if e["with"] == "library"})
     arg = sorted({f"{name(e)}<-{e['label']}" for e in rv if e["with"] == "argument"})
     out = ["construction probe: sharing that exists on the UNCHANGED tree is listed, each with a remark, in harness/props/c19.aliases.json and is not reported again "
-           "(anything not in that list is a failure).  (1) the object a constructor / accessor stores or hands out IS an object the library holds - GENUINE on the unchanged "
-           "tree and reported to the coordinator for a decision (repair or known finding), not hidden: editing that attribute of ONE object in place changes every other and "
-           "every later object built with the same (default) arguments: " + "; ".join(lib)]
+           "(anything not in that list is a failure).  (1) the object a constructor / accessor stores or hands out IS an object the library holds (a mutable default stored as "
+           "is, a class-level table).  Reviewed: the library itself never writes these objects (inventory theorems of Props/C19); a CALLER who edits that attribute of one object "
+           "in place - not a library call - changes every other and every later object built with the same (default) arguments: " + "; ".join(lib)]
     if RESULT_ROOTS:
         out[0] += ".  Objects returned inside histories may reference (reviewed, kept by hand in the same file): everything under " + ", ".join(RESULT_ROOTS) + " (a parsed MBXML document references the class-level LRRP token definitions and default constants table themselves)"
     out.append(f"construction probe: (2) {len(arg)} constructor parameters whose mutable argument object is kept as is (self.x = x, the style of the library's PDU classes on the "
